@@ -1,8 +1,11 @@
 """Fixed text of the three renderers (pjplan.viz), read from the repository on every run:
 format strings of the builders (with `ast`, fail-closed) and the `$placeholder` structure of the
-three HTML templates (with string.Template's own pattern).  Lands in gen/Consts.v with the prefix
-c19_; Render/RProofsDoc.v proves that the model's literals are these and that each placeholder sits
-inside the element the theorems talk about."""
+three HTML templates (with string.Template's own pattern), and the pieces of the F22 repairs (entity
+encoders of the two Mermaid builders, the replacement applied to the JSON text, html.escape around the
+Mermaid source).  Lands in gen/Consts.v with the prefix c19_; Render/RProofsDoc.v proves that the model's
+literals are these and that each placeholder sits inside the element the theorems talk about.  A piece
+that is not found in the source is reported as a problem and not emitted (RProofsDoc.v then does not
+compile: the theorems are about the repaired builders)."""
 import ast
 import os
 from string import Template
@@ -87,6 +90,89 @@ def _iframe_wrapper(fn):
     return None, False
 
 
+def _flatten_add(node):
+    if isinstance(node, ast.BinOp) and isinstance(node.op, ast.Add):
+        return _flatten_add(node.left) + _flatten_add(node.right)
+    return [node]
+
+
+def _entity_encoder(fn):
+    """(prefix, special characters, suffix) of a method whose only statement besides a docstring is
+         return PREFIX + ''.join(f'#{ord(c)};' if c in SPECIALS else c for c in <arg>) + SUFFIX
+    None when the method has any other shape."""
+    body = [st for st in fn.body if not (isinstance(st, ast.Expr) and isinstance(st.value, ast.Constant))]
+    if len(body) != 1 or not isinstance(body[0], ast.Return) or len(fn.args.args) != 1:
+        return None
+    arg = fn.args.args[0].arg
+    parts = _flatten_add(body[0].value)
+    calls = [i for i, x in enumerate(parts) if isinstance(x, ast.Call)]
+    if len(calls) != 1 or not all(isinstance(x, ast.Constant) and isinstance(x.value, str)
+                                  for i, x in enumerate(parts) if i != calls[0]):
+        return None
+    call = parts[calls[0]]
+    if not (isinstance(call.func, ast.Attribute) and call.func.attr == 'join' and isinstance(call.func.value, ast.Constant)
+            and call.func.value.value == '' and len(call.args) == 1 and not call.keywords
+            and isinstance(call.args[0], ast.GeneratorExp)):
+        return None
+    gen = call.args[0]
+    if len(gen.generators) != 1:
+        return None
+    comp = gen.generators[0]
+    if not (isinstance(comp.target, ast.Name) and isinstance(comp.iter, ast.Name) and comp.iter.id == arg
+            and not comp.ifs and not comp.is_async):
+        return None
+    c = comp.target.id
+    e = gen.elt
+    if not (isinstance(e, ast.IfExp) and isinstance(e.orelse, ast.Name) and e.orelse.id == c
+            and isinstance(e.test, ast.Compare) and isinstance(e.test.left, ast.Name) and e.test.left.id == c
+            and len(e.test.ops) == 1 and isinstance(e.test.ops[0], ast.In)
+            and isinstance(e.test.comparators[0], ast.Constant) and isinstance(e.test.comparators[0].value, str)
+            and isinstance(e.body, ast.JoinedStr) and len(e.body.values) == 3):
+        return None
+    a, f, b = e.body.values
+    if not (isinstance(a, ast.Constant) and a.value == '#' and isinstance(b, ast.Constant) and b.value == ';'
+            and isinstance(f, ast.FormattedValue) and f.conversion == -1 and f.format_spec is None
+            and isinstance(f.value, ast.Call) and isinstance(f.value.func, ast.Name) and f.value.func.id == 'ord'
+            and len(f.value.args) == 1 and isinstance(f.value.args[0], ast.Name) and f.value.args[0].id == c):
+        return None
+    return (''.join(x.value for x in parts[:calls[0]]), e.test.comparators[0].value,
+            ''.join(x.value for x in parts[calls[0] + 1:]))
+
+
+def _calls_private(fn, suffix):
+    """number of calls self.<...suffix>(...) inside a function"""
+    return sum(1 for node in ast.walk(fn) if isinstance(node, ast.Call) and isinstance(node.func, ast.Attribute)
+               and node.func.attr.endswith(suffix) and isinstance(node.func.value, ast.Name) and node.func.value.id == 'self')
+
+
+def _src_escaped(fn):
+    """True when to_html substitutes src=escape(self.__src())"""
+    for node in ast.walk(fn):
+        if isinstance(node, ast.Call) and isinstance(node.func, ast.Attribute) and node.func.attr == 'substitute':
+            for k in node.keywords:
+                if k.arg == 'src':
+                    v = k.value
+                    return (isinstance(v, ast.Call) and isinstance(v.func, ast.Name) and v.func.id == 'escape'
+                            and len(v.args) == 1 and not v.keywords and isinstance(v.args[0], ast.Call)
+                            and isinstance(v.args[0].func, ast.Attribute) and v.args[0].func.attr.endswith('__src'))
+    return False
+
+
+def _json_replacement(fn):
+    """(old, new) when the only return of __data is json.dumps(...).replace(old, new)"""
+    rets = [n for n in ast.walk(fn) if isinstance(n, ast.Return)]
+    if len(rets) != 1:
+        return None
+    v = rets[0].value
+    if not (isinstance(v, ast.Call) and isinstance(v.func, ast.Attribute) and v.func.attr == 'replace' and len(v.args) == 2
+            and not v.keywords and all(isinstance(a, ast.Constant) and isinstance(a.value, str) for a in v.args)):
+        return None
+    inner = v.func.value
+    if not (isinstance(inner, ast.Call) and isinstance(inner.func, ast.Attribute) and inner.func.attr == 'dumps'):
+        return None
+    return v.args[0].value, v.args[1].value
+
+
 def extract(repo):
     """dict of the constants, list of problems"""
     problems = []
@@ -143,6 +229,37 @@ def extract(repo):
             problems.append('MermaidNetwork.__src: header not found')
         else:
             vals['net_header'] = head[0]
+    # ---- the repairs of F22 ----
+    f = _method(g, 'MermaidGantt', '__text')
+    enc = _entity_encoder(f) if f is not None else None
+    if enc is None:
+        problems.append('MermaidGantt.__text: entity encoder of task and section texts not found')
+    else:
+        vals['gantt_text_prefix'], vals['gantt_text_specials'], vals['gantt_text_suffix'] = enc
+        ft, fs = _method(g, 'MermaidGantt', '__mermaid_task'), _method(g, 'MermaidGantt', '__src')
+        if ft is None or fs is None or _calls_private(ft, '__text') != 1 or _calls_private(fs, '__text') != 1:
+            problems.append('MermaidGantt: __text is not applied once to the task name and once to the section name')
+    f = _method(n, 'MermaidNetwork', '__label')
+    enc = _entity_encoder(f) if f is not None else None
+    if enc is None:
+        problems.append('MermaidNetwork.__label: entity encoder of node labels not found')
+    else:
+        vals['net_label_prefix'], vals['net_label_specials'], vals['net_label_suffix'] = enc
+        fs = _method(n, 'MermaidNetwork', '__src')
+        if fs is None or _calls_private(fs, '__label') != 2:
+            problems.append('MermaidNetwork.__src: __label is not applied to the two names of an edge')
+    for key, tree, cls in (('mgantt', g, 'MermaidGantt'), ('mnet', n, 'MermaidNetwork')):
+        f = _method(tree, cls, 'to_html')
+        if f is None or not _src_escaped(f):
+            problems.append('%s.to_html: the Mermaid source is not substituted as escape(self.__src())' % cls)
+        else:
+            vals['src_escaped_' + key] = True
+    f = _method(d, 'DhtmlxGantt', '__data')
+    rep = _json_replacement(f) if f is not None else None
+    if rep is None:
+        problems.append('DhtmlxGantt.__data: json.dumps(...).replace(old, new) not found')
+    else:
+        vals['json_replace_old'], vals['json_replace_new'] = rep
     for key, tree, cls in (('mgantt', g, 'MermaidGantt'), ('mnet', n, 'MermaidNetwork'), ('dhtmlx', d, 'DhtmlxGantt')):
         f = _method(tree, cls, '_repr_html_')
         w, escaped = _iframe_wrapper(f) if f is not None else (None, False)
@@ -163,9 +280,14 @@ def emit(repo):
     vals, tpl, problems = extract(repo)
     out = ['Definition c19_text := list N.']
     for k in ('gantt_start_format', 'gantt_end_format', 'gantt_line_format', 'gantt_header',
-              'dhtmlx_start_format', 'dhtmlx_end_format', 'net_header'):
+              'dhtmlx_start_format', 'dhtmlx_end_format', 'net_header',
+              'gantt_text_prefix', 'gantt_text_specials', 'gantt_text_suffix',
+              'net_label_prefix', 'net_label_specials', 'net_label_suffix', 'json_replace_old', 'json_replace_new'):
         if k in vals:
             out.append('Definition c19_%s : list N := %s.' % (k, cps(vals[k])))
+    for key in ('mgantt', 'mnet'):
+        if vals.get('src_escaped_' + key):
+            out.append('Definition c19_src_escaped_%s : bool := true.' % key)
     for key in ('mgantt', 'mnet', 'dhtmlx'):
         if 'wrapper_' + key in vals:
             w = vals['wrapper_' + key]
